@@ -19,7 +19,7 @@ theorem shape_Rect_ContainsCell : RegionFns.Rect_ContainsCell_shape =
 theorem exprs_Rect_ContainsCell : RegionFns.Rect_ContainsCell_exprs =
     "" := rfl
 theorem shape_Rect_IntersectsCell : RegionFns.Rect_IntersectsCell_shape =
-    "if cond0⟨r.IsEmpty()⟩ {return false}; if cond1⟨r.ContainsPoint(Point{c.id.rawPoint()})⟩ {return true}; if cond2⟨c.ContainsPoint(PointFromLatLng(r.Center()))⟩ {return true}; if cond3⟨r.Intersects(c.RectBound())⟩ {return false}; vertices := [4]Point{}; latlngs := [4]LatLng{}; range i := vertices {vertices[i] = c.Vertex(i); latlngs[i] = LatLngFromPoint(vertices[i]); if cond4⟨r.ContainsLatLng(latlngs[i])⟩ {return true}; if cond5⟨c.ContainsPoint(PointFromLatLng(r.Vertex(i)))⟩ {return true}}; range i := vertices {edgeLng := s1.IntervalFromEndpoints(latlngs[i].Lng.Radians(), latlngs[(val0⟨i⟩) & 3].Lng.Radians()); if cond6⟨r.Lng.Intersects(edgeLng)⟩ {continue}; a := vertices[i]; b := vertices[(val1⟨i⟩) & 3]; if cond7⟨edgeLng.Contains(r.Lng.Lo); intersectsLngEdge(a, b, r.Lat, s1.Angle(r.Lng.Lo))⟩ {return true}; if cond8⟨edgeLng.Contains(r.Lng.Hi); intersectsLngEdge(a, b, r.Lat, s1.Angle(r.Lng.Hi))⟩ {return true}; if cond9⟨intersectsLatEdge(a, b, s1.Angle(r.Lat.Lo), r.Lng)⟩ {return true}; if cond10⟨intersectsLatEdge(a, b, s1.Angle(r.Lat.Hi), r.Lng)⟩ {return true}}; return false" := rfl
+    "if cond0⟨r.IsEmpty()⟩ {return false}; if cond1⟨r.ContainsPoint(Point{c.id.rawPoint()})⟩ {return true}; if cond2⟨c.ContainsPoint(PointFromLatLng(r.Center()))⟩ {return true}; if cond3⟨r.Intersects(c.RectBound())⟩ {return false}; vertices := [4]Point{}; latlngs := [4]LatLng{}; range i := vertices {vertices[i] = c.Vertex(i); latlngs[i] = LatLngFromPoint(vertices[i]); if cond4⟨r.ContainsLatLng(latlngs[i])⟩ {return true}; if cond5⟨c.ContainsPoint(PointFromLatLng(r.Vertex(i)))⟩ {return true}}; range i := vertices {edgeLng := s1.IntervalFromPointPair(latlngs[i].Lng.Radians(), latlngs[(val0⟨i⟩) & 3].Lng.Radians()); if cond6⟨r.Lng.Intersects(edgeLng)⟩ {continue}; a := vertices[i]; b := vertices[(val1⟨i⟩) & 3]; if cond7⟨edgeLng.Contains(r.Lng.Lo); intersectsLngEdge(a, b, r.Lat, s1.Angle(r.Lng.Lo))⟩ {return true}; if cond8⟨edgeLng.Contains(r.Lng.Hi); intersectsLngEdge(a, b, r.Lat, s1.Angle(r.Lng.Hi))⟩ {return true}; if cond9⟨intersectsLatEdge(a, b, s1.Angle(r.Lat.Lo), r.Lng)⟩ {return true}; if cond10⟨intersectsLatEdge(a, b, s1.Angle(r.Lat.Hi), r.Lng)⟩ {return true}}; return false" := rfl
 theorem exprs_Rect_IntersectsCell : RegionFns.Rect_IntersectsCell_exprs =
     "cond0: r.IsEmpty() | cond1: r.ContainsPoint(Point{c.id.rawPoint()}) | cond2: c.ContainsPoint(PointFromLatLng(r.Center())) | cond3: !r.Intersects(c.RectBound()) | cond4: r.ContainsLatLng(latlngs[i]) | cond5: c.ContainsPoint(PointFromLatLng(r.Vertex(i))) | val0: i + 1 | cond6: !r.Lng.Intersects(edgeLng) | val1: i + 1 | cond7: edgeLng.Contains(r.Lng.Lo) && intersectsLngEdge(a, b, r.Lat, s1.Angle(r.Lng.Lo)) | cond8: edgeLng.Contains(r.Lng.Hi) && intersectsLngEdge(a, b, r.Lat, s1.Angle(r.Lng.Hi)) | cond9: intersectsLatEdge(a, b, s1.Angle(r.Lat.Lo), r.Lng) | cond10: intersectsLatEdge(a, b, s1.Angle(r.Lat.Hi), r.Lng)" := rfl
 theorem shape_intersectsLatEdge : RegionFns.intersectsLatEdge_shape =
